@@ -29,10 +29,12 @@ type E2ESystem struct {
 
 func NewE2E(nsess int) *E2ESystem { return &E2ESystem{name: "e2e", NSess: nsess} }
 
-func (s *E2ESystem) Name() string           { return s.name }
-func (s *E2ESystem) Events() []core.Event   { return nil }
-func (s *E2ESystem) Config() map[string]any { return map[string]any{"impl": s.name, "nsess": s.NSess, "nsubs": 0} }
-func (s *E2ESystem) New() core.Instance     { return newE2E(s) }
+func (s *E2ESystem) Name() string         { return s.name }
+func (s *E2ESystem) Events() []core.Event { return nil }
+func (s *E2ESystem) Config() map[string]any {
+	return map[string]any{"impl": s.name, "nsess": s.NSess, "nsubs": 0}
+}
+func (s *E2ESystem) New() core.Instance { return newE2E(s) }
 
 type e2eInst struct {
 	*inst
